@@ -654,6 +654,29 @@ def rule_continuation(ck, methods, all_acc):
                 okr = isinstance(r, ast.Call) and q.call_attr(r) == "strip" and q.dotted(r.func.value) == pl.params()[1] and len(r.args) == 1 and (q.dotted(r.args[0]) == "HTTP_WHITESPACE" or (isinstance(r.args[0], ast.Constant) and set(r.args[0].value) == set(" \t")))
                 n += 1
                 ck.ob("C06.continuation", pl, st, okr, "only HTTP whitespace (SP / HTAB) is stripped from the continuation line")
+    # the continuation target is only forgotten together with the header it names: outside __init__, `_last_key = None`
+    # needs a dominating `self._last_key == <key being removed>` (or a wholesale clear of the map)
+    nlk = 0
+    for m_ in methods:
+        for nd_ in m_.cfg.stmt_nodes(lambda x: x.kind == "stmt" and isinstance(x.ast, (ast.Assign, ast.AnnAssign)) and "self._last_key" in q.assigned_paths(x.ast)):
+            nlk += 1
+            if m_.name == "__init__" or not q.is_const(nd_.ast.value, None):
+                continue
+            wholesale = any(a_.kind in ("mut-other", "whole-store") and a_.d == LIST for a_ in all_acc[m_.qualname])
+            F_ = must_facts(m_.cfg)[nd_.id]
+            tied = False
+            for t_, pol_ in F_:
+                if not pol_ or t_.startswith("@"):
+                    continue
+                try:
+                    e_ = ast.parse(t_, mode="eval").body
+                except SyntaxError:
+                    continue
+                if isinstance(e_, ast.Compare) and len(e_.ops) == 1 and isinstance(e_.ops[0], (ast.Eq, ast.Is)) and "self._last_key" in (q.dotted(e_.left), q.dotted(e_.comparators[0])) and not q.is_const(e_.left, None) and not q.is_const(e_.comparators[0], None):
+                    tied = True
+            n += 1
+            ck.ob("C06.continuation", m_, nd_.ast, tied or wholesale, "self._last_key is reset to None only when the header it names is the one being removed (a continuation line after deleting some other header still folds into the last parsed line)")
+    ck.floor("C06.continuation", nlk, 2, "writes to self._last_key (initialisation and add())")
     # the non-continuation branch funnels through add()
     pline = byname["parse_line"]
     adds = [c for c in q.calls(pline.node) if q.dotted(c.func) == "self.add"]
@@ -809,6 +832,8 @@ def _src(st):
 
 
 MUTANTS = [
+    ("seeded C06-adv5: __delitem__ also resets _last_key = None (deleting any header breaks the next continuation line)", _m("HTTPHeaders.__delitem__", lambda root: (root.body.append(parse_stmt("self._last_key = None")) or True)), "C06.continuation"),
+    ("__setitem__ forgets the continuation target", _m("HTTPHeaders.__setitem__", lambda root: (root.body.append(parse_stmt("self._last_key = None")) or True)), "C06.continuation"),
     ("seeded C06-adv4: copy constructor takes the source's state (value lists duplicated, _combined_cache shared by reference)", _m("HTTPHeaders", replace_stmt(lambda st: isinstance(st, ast.For) and "get_all" in _src(st) and "self.add" in _src(st), lambda st: ast.parse("other = args[0]\nself._as_list = {k: list(v) for k, v in other._as_list.items()}\nself._combined_cache = other._combined_cache\nself._last_key = other._last_key").body)), ("C06.copy-independent", "C06.owner")),
     ("value-exact: add() strips the value before storing it", _m("HTTPHeaders.add", replace_expr(lambda n: isinstance(n, ast.Call) and q.call_attr(n) == "append", lambda n: parse_expr("self._as_list[norm_name].append(value.strip())"))), "C06.value-exact"),
     ("serialize: __str__ iterates items() (repeated headers serialised as one comma-joined line)", _m("HTTPHeaders.__str__", replace_expr(lambda n: isinstance(n, ast.Call) and q.call_attr(n) == "get_all", lambda n: parse_expr("self.items()"))), "C06.serialize"),
